@@ -27,6 +27,21 @@ TOLC = 2.0e4   # tolerance = TOLC * eps * nsite * scale  (~4e-12 * n * scale); c
 
 
 # ------------------------------------------------------------------------------------ helpers
+def pnorm(arrs):
+    """product of the Frobenius norms of the site tensors: the natural magnitude of every
+    intermediate of a chain contraction (>= norm of the contracted object)"""
+    return float(np.prod([np.linalg.norm(a) for a in arrs]))
+
+
+MAXR = [0.0]
+
+
+def _track(err, tol):
+    """largest observed error / tolerance on passing comparisons (calibration record)"""
+    if tol > 0 and np.isfinite(err) and err <= tol:
+        MAXR[0] = max(MAXR[0], float(err) / tol)
+
+
 def _tol(n, scale):
     return TOLC * L.EPS * max(n, 1) * max(scale, 1e-300)
 
@@ -35,10 +50,12 @@ def _cmp_scalar(got, want, tol):
     """got: python float or complex from the library; want: complex dense value.
     Returns None if fine, else a reason string."""
     if isinstance(got, complex) or np.iscomplexobj(got):
+        _track(abs(complex(got) - complex(want)), tol)
         if abs(complex(got) - complex(want)) > tol:
             return "value"
         return None
     # float returned: imaginary part was judged negligible by the code (|Im| <= 1e-8)
+    _track(abs(float(got) - complex(want).real), tol)
     if abs(float(got) - complex(want).real) > tol:
         return "value"
     if abs(complex(want).imag) > 1e-8 + tol:
@@ -52,9 +69,11 @@ def _cmp_vec(got, want, tol):
     if got.shape != want.shape:
         return "shape"
     if np.iscomplexobj(got):
+        _track(np.max(np.abs(got - want), initial=0.0), tol)
         if np.max(np.abs(got - want), initial=0.0) > tol:
             return "value"
         return None
+    _track(np.max(np.abs(got - want.real), initial=0.0), tol)
     if np.max(np.abs(got - want.real), initial=0.0) > tol:
         return "value"
     if np.max(np.abs(want.imag), initial=0.0) > 1e-8 + tol:
@@ -95,6 +114,7 @@ class Case:
         self.mp = self._state(self.cplx)
         self.arrs = L.arrays(self.mp)
         self.T = L.dense_chain(self.arrs)           # tensor with physical legs
+        self.sscale = pnorm(self.arrs)
         if self.form == "mps":
             self.vec = self.T.reshape(-1)
             self.nrm2 = float(np.vdot(self.vec, self.vec).real)
@@ -230,12 +250,13 @@ class Case:
 # ------------------------------------------------------------------------------------ dense observables
 def dense_expect(case, Oarrs, bra_arrs=None):
     O = L.dense_op(Oarrs)
+    scale = case.sscale * pnorm(Oarrs) * (case.sscale if bra_arrs is None else pnorm(bra_arrs))
     if case.form == "mps":
         bra = case.vec.conj() if bra_arrs is None else L.dense_vec(bra_arrs)
-        return complex(bra @ (O @ case.vec)), float(np.linalg.norm(bra) * np.linalg.norm(O, 2) * np.linalg.norm(case.vec))
+        return complex(bra @ (O @ case.vec)), scale
     Mb = case.M.conj() if bra_arrs is None else L.dense_op(bra_arrs)
     val = complex(np.sum(Mb * (O @ case.M)))
-    return val, float(np.linalg.norm(Mb) * np.linalg.norm(O, 2) * np.linalg.norm(case.M))
+    return val, scale
 
 
 def local_expect(case, i, mat):
@@ -469,7 +490,7 @@ class Checker:
         c = self.c
         n = c.n
         model = c.mp.model
-        tol = _tol(n, c.nrm2 * 4)
+        tol = _tol(n, c.sscale ** 2 * 4)
         # electronic
         e_want = []
         for i, d in enumerate(c.desc):
@@ -510,7 +531,7 @@ class Checker:
             order = list(model.v_dofs)
             dd = dict(v_want)
             want = np.array([dd[k] for k in order])
-            tolv = _tol(n, c.nrm2 * 4)
+            tolv = _tol(n, c.sscale ** 2 * 4)
             for rep in range(2):
                 got = c.mp.ph_occupations
                 self.run.count(f"ph_occupations:{self.cls()}")
@@ -581,7 +602,7 @@ class Checker:
             self.run.count(f"rejected:edof_rdm:{type(e).__name__}")
             return
         self.run.count(f"calc_edof_rdm:{self.cls()}")
-        tol = _tol(n, c.nrm2 * 4)
+        tol = _tol(n, c.sscale ** 2 * 4)
         if got.shape != want.shape:
             self.fail(f"calc_edof_rdm:{c.form}:shape", dict(got=L.ser_val(got), want=L.ser_val(want)))
         elif np.max(np.abs(got - want)) > tol + (1e-8 if True else 0):
@@ -594,7 +615,7 @@ class Checker:
     def rdms(self):
         c, rng = self.c, self.c.rng
         n = c.n
-        tol = _tol(n, c.nrm2 * 4)
+        tol = _tol(n, c.sscale ** 2 * 4)
         mode = int(rng.integers(0, 3))
         if mode == 0:
             idx = None
@@ -651,7 +672,12 @@ class Checker:
     def entropies(self):
         c = self.c
         n = c.n
-        etol = 2e-9   # absolute; entropy is O(1); eigenvalue errors ~1e-15 give ~1e-13
+        # entropies need *relative* accuracy of the spectrum: kappa = (product of tensor norms)^2 / <psi|psi>
+        kappa = c.sscale ** 2 / c.nrm2
+        if kappa > 1e6:
+            self.run.count("skipped:entropy:ill-conditioned-representation")
+            return
+        etol = max(2e-9, 1e3 * L.EPS * kappa * 40)   # |d(p ln p)| <= |dp| (1 + |ln p|), p >= 1e-17
         s1w = {i: entropy_dm(rdm1_dense(c, i)) for i in range(n)}
         s1 = c.mp.calc_entropy("1site")
         self.run.count(f"entropy-1site:{self.cls()}")
@@ -687,7 +713,7 @@ class Checker:
                 self.fail(f"calc_entropy:bond:{c.form}", dict(got=L.ser_val(b1), got2=L.ser_val(b2), want=L.ser_val(bw)))
             ok = sv.ndim == 2 and sv.shape[0] == n - 1
             if ok:
-                stol = _tol(n, np.sqrt(c.nrm2))
+                stol = _tol(n, c.sscale)
                 for k in range(n - 1):
                     g = np.sort(np.abs(sv[k]))[::-1]
                     w = np.sort(sw[k])[::-1]
@@ -703,6 +729,7 @@ class Checker:
 # ------------------------------------------------------------------------------------ driver
 def search(run, rng, quick):
     SEEN.clear()
+    MAXR[0] = 0.0
     t0 = time.time()
     budget = 42.0 if quick else 480.0
     ncase = 0
@@ -731,5 +758,7 @@ def search(run, rng, quick):
             break
     run.cov["evaluations"] = run.cov.get("evaluations", 0) + ncase
     run.cov["distinct_nontrivial"] = len(distinct)
+    run.cov["max_error_over_tolerance"] = MAXR[0]
+    run.count("max_err/tol(x1e6)", int(MAXR[0] * 1e6) - run.counts.get("max_err/tol(x1e6)", 0))
     run.cov["rule"] = ("distinct (basis description, Mps/MpDm, dtype, bond dimensions, gauge history) with some bond "
                        "dimension > 1 (or a one-site chain); each case runs every observable family")
